@@ -11,7 +11,7 @@ from vflib import ll2c
 CLANG = 'clang++-14'
 BASE_FLAGS = ['-std=c++20', '-O1', '-fno-vectorize', '-fno-slp-vectorize', '-fno-unroll-loops', '-fno-exceptions',
               '-fno-rtti', '-fno-strict-aliasing', '-fno-threadsafe-statics', '-fno-use-cxa-atexit', '-fno-builtin',
-              '-ffreestanding', '-fno-stack-protector', '-Wno-everything', '-S', '-emit-llvm', '-D__linux__=1', '-DVF_MODEL=1']
+              '-ffreestanding', '-fno-stack-protector', '-Wno-everything', '-mllvm', '-simplifycfg-sink-common=false', '-S', '-emit-llvm', '-D__linux__=1', '-DVF_MODEL=1']
 GXX_INC = ['-isystem', '/usr/include/c++/12', '-isystem', '/usr/include/x86_64-linux-gnu/c++/12']
 CBMC_FLAGS = ['--unwinding-assertions', '--pointer-overflow-check', '--undefined-shift-check', '--drop-unused-functions',
               '--object-bits', '12', '--no-malloc-may-fail', '--no-standard-checks', '--bounds-check', '--pointer-check',
